@@ -83,6 +83,12 @@ func (i ImportNames) TypeName(t types.Type) string {
 			return fmt.Sprintf("%v.%v", pkgName, typ.Obj().Name())
 		}
 		return typ.Obj().Name()
+	case *types.Slice:
+		return "[]" + i.TypeName(typ.Elem())
+	case *types.Array:
+		return fmt.Sprintf("[%d]%v", typ.Len(), i.TypeName(typ.Elem()))
+	case *types.Map:
+		return fmt.Sprintf("map[%v]%v", i.TypeName(typ.Key()), i.TypeName(typ.Elem()))
 	default:
 		return t.String()
 	}
